@@ -5,7 +5,7 @@
    (position = sample id), the number of classes C = dataset.getdim_class(), the
    constructor arguments and the recorded generator outputs.  Output: the list of
    selected sample ids in order, None = the constructor raised.  No proofs here. *)
-From Coq Require Import ZArith List Bool Floats Uint63.
+From Coq Require Import ZArith List Bool.
 Import ListNotations.
 Open Scope Z_scope.
 
@@ -38,32 +38,6 @@ Definition class_counts (classes : list Z) (C : Z) : option (list Z) :=
 
 Definition zmax (l : list Z) : Z := fold_right Z.max 0 l.
 
-(* ---------------- binary64 percent -> index ---------------- *)
-Definition fz (n : Z) : float := PrimFloat.of_uint63 (Uint63.of_Z n).
-
-(* int(x) for a finite x *)
-Definition ftrunc (f : float) : Z :=
-  match Prim2SF f with
-  | S754_finite s m e =>
-      let v := if 0 <=? e then Zpos m * 2 ^ e else Zpos m / 2 ^ (- e) in if s then - v else v
-  | _ => 0
-  end.
-
-(* np.ceil(x) for a finite x *)
-Definition fceil (f : float) : Z :=
-  match Prim2SF f with
-  | S754_finite s m e =>
-      if 0 <=? e then (if s then - (Zpos m * 2 ^ e) else Zpos m * 2 ^ e)
-      else if s then - (Zpos m / 2 ^ (- e)) else (Zpos m + 2 ^ (- e) - 1) / 2 ^ (- e)
-  | _ => 0
-  end.
-
-(* percent * len(dataset), then int() or np.ceil() *)
-Definition fcut (ceil : bool) (p : float) (n : Z) : Z :=
-  let x := PrimFloat.mul p (fz n) in if ceil then fceil x else ftrunc x.
-
-Definition pct_ok (p : float) : bool := PrimFloat.leb 0%float p && PrimFloat.leb p 1%float.
-
 Definition odflt {A} (o : option A) (d : A) : A := match o with Some x => x | None => d end.
 Definition is_some {A} (o : option A) : bool := match o with Some _ => true | None => false end.
 
@@ -73,18 +47,21 @@ Definition class_filter (valid : bool) (cls : list Z) (classes : list Z) : list 
   sel_from 0 (fun c => Bool.eqb (existsb (Z.eqb c) cls) valid) classes.
 
 (* ---------------- PercentFilterWrapper ---------------- *)
-(* `cut ceil p n` is the percent -> index map (int(p * n) or np.ceil(p * n)); the wrappers are
-   written over an arbitrary one so that the theorems can state what they need of it; the
-   executable instances below use the binary64 fcut. *)
-Definition cut_t : Type := bool -> float -> Z -> Z.
+(* The percent wrappers are written over an abstract percent type with its operations
+   (0., 1., the assertion 0. <= p <= 1., <=, and the percent -> index map
+   `p_cut ceil p n` = int(p * n) or np.ceil(p * n)), so that the theorems can state what they
+   need of them; the executable binary64 instance float_ops is in ModelFloat.v (kept apart so
+   that the theorems' module closure contains no primitive floats). *)
+Record pct_ops (P : Type) : Type := {
+  p_zero : P; p_one : P; p_ok : P -> bool; p_leb : P -> P -> bool; p_cut : bool -> P -> Z -> Z }.
+Arguments p_zero {P}. Arguments p_one {P}. Arguments p_ok {P}. Arguments p_leb {P}. Arguments p_cut {P}.
 
-Definition percent_filter_g (cut : cut_t) (n : Z) (from to : option float) (cf ct : bool) : option (list Z) :=
-  let fp := odflt from 0%float in          (* from_percent or 0. *)
-  let tp := odflt to 1%float in            (* 1. if to_percent is None else to_percent *)
-  if pct_ok fp && pct_ok tp
-  then Some (zrange (cut cf fp n) (cut ct tp n))
+Definition percent_filter_g {P} (O : pct_ops P) (n : Z) (from to : option P) (cf ct : bool) : option (list Z) :=
+  let fp := odflt from (p_zero O) in       (* from_percent or 0. *)
+  let tp := odflt to (p_one O) in          (* 1. if to_percent is None else to_percent *)
+  if p_ok O fp && p_ok O tp
+  then Some (zrange (p_cut O cf fp n) (p_cut O ct tp n))
   else None.
-Definition percent_filter := percent_filter_g fcut.
 
 (* ---------------- SubsetWrapper ---------------- *)
 Definition subset_indices (n : Z) (idxs : list Z) : option (list Z) :=
@@ -98,13 +75,12 @@ Definition subset_range (n : Z) (s e : option Z) : option (list Z) :=
   let s' := odflt s 0 in
   if s' <=? e' then Some (zrange s' e') else None.
 
-Definition subset_percent_g (cut : cut_t) (n : Z) (s e : option float) : option (list Z) :=
+Definition subset_percent_g {P} (O : pct_ops P) (n : Z) (s e : option P) : option (list Z) :=
   if negb (is_some s || is_some e) then None else
-  if negb (pct_ok (odflt s 0%float) && pct_ok (odflt e 1%float)) then None else
-  let sp := odflt s 0%float in
-  let ep := odflt e 1%float in
-  if PrimFloat.leb sp ep then Some (zrange (cut false sp n) (cut false ep n)) else None.
-Definition subset_percent := subset_percent_g fcut.
+  if negb (p_ok O (odflt s (p_zero O)) && p_ok O (odflt e (p_one O))) then None else
+  let sp := odflt s (p_zero O) in
+  let ep := odflt e (p_one O) in
+  if p_leb O sp ep then Some (zrange (p_cut O false sp n) (p_cut O false ep n)) else None.
 
 (* ---------------- ShuffleWrapper: rng.shuffle(arange(n)) ---------------- *)
 Definition shuffle (n : Z) (draw : list Z) : list Z := draw.
@@ -239,29 +215,28 @@ Definition classwise_range (classes : list Z) (C : Z) (s e : option Z) (check : 
       end
   end.
 
-Definition classwise_percent_g (cut : cut_t) (classes : list Z) (C : Z) (s e : option float) : option (list Z) :=
+Definition classwise_percent_g {P} (O : pct_ops P) (classes : list Z) (C : Z) (s e : option P) : option (list Z) :=
   match class_counts classes C with
   | None => None
   | Some _ =>
       if negb (is_some s || is_some e) then None else
-      if negb (pct_ok (odflt s 0%float) && pct_ok (odflt e 1%float)) then None else
-      let sp := odflt s 0%float in
-      let ep := odflt e 1%float in
-      if negb (PrimFloat.leb sp ep) then None else
+      if negb (p_ok O (odflt s (p_zero O)) && p_ok O (odflt e (p_one O))) then None else
+      let sp := odflt s (p_zero O) in
+      let ep := odflt e (p_one O) in
+      if negb (p_leb O sp ep) then None else
       Some (concat (map (fun i =>
                   let cnt := count_of i classes in
-                  slice (positions i classes) (cut false sp cnt) (cut false ep cnt))
+                  slice (positions i classes) (p_cut O false sp cnt) (p_cut O false ep cnt))
                 (zrange 0 C)))
   end.
-Definition classwise_percent := classwise_percent_g fcut.
 
 (* ---------------- one constructor call ---------------- *)
-Inductive wcase :=
+Inductive wcase_g (P : Type) :=
 | WClassFilter (valid : bool) (cls : list Z)
-| WPercent (from to : option float) (cf ct : bool)
+| WPercent (from to : option P) (cf ct : bool)
 | WSubsetIdx (idxs : list Z)
 | WSubsetRange (s e : option Z)
-| WSubsetPercent (s e : option float)
+| WSubsetPercent (s e : option P)
 | WShuffle (draw : list Z)
 | WRepeat (reps min_size : option Z)
 | WOversample (exact : bool)
@@ -269,16 +244,20 @@ Inductive wcase :=
 | WIntraClass (draws : list (list Z))
 | WFewshot (shots : Z) (draws : list (list Z))
 | WClasswiseRange (s e : option Z) (check : bool)
-| WClasswisePercent (s e : option float).
+| WClasswisePercent (s e : option P).
+Arguments WClassFilter {P}. Arguments WPercent {P}. Arguments WSubsetIdx {P}. Arguments WSubsetRange {P}.
+Arguments WSubsetPercent {P}. Arguments WShuffle {P}. Arguments WRepeat {P}. Arguments WOversample {P}.
+Arguments WSortByClass {P}. Arguments WIntraClass {P}. Arguments WFewshot {P}. Arguments WClasswiseRange {P}.
+Arguments WClasswisePercent {P}.
 
-Definition run (classes : list Z) (C : Z) (w : wcase) : option (list Z) :=
+Definition run_g {P} (O : pct_ops P) (classes : list Z) (C : Z) (w : wcase_g P) : option (list Z) :=
   let n := zlen classes in
   match w with
   | WClassFilter v cls => Some (class_filter v cls classes)
-  | WPercent f t cf ct => percent_filter n f t cf ct
+  | WPercent f t cf ct => percent_filter_g O n f t cf ct
   | WSubsetIdx idxs => subset_indices n idxs
   | WSubsetRange s e => subset_range n s e
-  | WSubsetPercent s e => subset_percent n s e
+  | WSubsetPercent s e => subset_percent_g O n s e
   | WShuffle d => Some (shuffle n d)
   | WRepeat r m => repeat_wrapper n r m
   | WOversample ex => oversample ex classes C
@@ -286,5 +265,5 @@ Definition run (classes : list Z) (C : Z) (w : wcase) : option (list Z) :=
   | WIntraClass d => intra_class_shuffle classes C d
   | WFewshot k d => fewshot classes k d
   | WClasswiseRange s e chk => classwise_range classes C s e chk
-  | WClasswisePercent s e => classwise_percent classes C s e
+  | WClasswisePercent s e => classwise_percent_g O classes C s e
   end.
